@@ -1,7 +1,939 @@
-//! C35: not implemented yet.
-use crate::Args;
+//! C35: the page cache never evicts pinned pages or mixes contents; a shard never holds more
+//! entries than its capacity; budget accounting returns to zero when the cache is emptied.
+//!
+//! Real threads on `turdb::storage::PageCache` with schedule perturbation at the library's
+//! yield points and between harness operations. Every page carries a self-identifying pattern
+//! (key, generation = number of the init call that created it, stamp = unique id of the last
+//! write) so that every read says which write it observed.
+//!
+//! This file also hosts `sched`, the schedule-perturbation / lane-runner helper that C37 shares.
 
-pub fn run(_a: &Args) -> i32 {
-    println!("INCONCLUSIVE property=C35 reason=check not implemented yet");
-    2
+use crate::report::{catch, panic_site, Ctx};
+use crate::rng::Rng;
+use crate::Args;
+use parking_lot::Mutex;
+use serde_json::{json, Value};
+use std::collections::{BTreeMap, HashSet};
+use std::sync::atomic::{AtomicU32, AtomicU64, Ordering::SeqCst};
+use std::sync::Arc;
+use std::time::{Duration, Instant};
+use turdb::memory::{MemoryBudget, Pool};
+use turdb::storage::{PageCache, PageKey, PageRef};
+
+// ------------------------------------------------------------------------------------------------
+// schedule perturbation, interleaving fingerprints, lane runner (shared with C37)
+// ------------------------------------------------------------------------------------------------
+pub mod sched {
+    use crate::rng::{fnv, Rng};
+    use parking_lot::Mutex;
+    use std::cell::RefCell;
+    use std::sync::atomic::{AtomicBool, AtomicU32, AtomicU64, Ordering::SeqCst};
+    use std::sync::Arc;
+    use std::time::{Duration, Instant};
+
+    /// optional per-round observer called at every point: (thread index, thread tag, point name)
+    pub type Extra = Arc<dyn Fn(usize, u64, &'static str) + Send + Sync>;
+
+    /// profile without any random perturbation (directed schedules)
+    pub const QUIET: u64 = 99;
+
+    pub struct RoundShared {
+        /// order-sensitive hash of the (thread index, point name) events in the order they happened
+        pub fp: AtomicU64,
+        pub events: AtomicU64,
+        /// threads currently inside an instrumented call (maintained by the harness)
+        pub in_window: AtomicU32,
+        /// yield-point events at which >= 2 threads were inside the instrumented window
+        pub overlap_events: AtomicU64,
+        /// cumulative permille thresholds: nothing | yield_now | spin | sleep
+        pub weights: [u32; 3],
+        pub extra: Option<Extra>,
+    }
+
+    impl RoundShared {
+        pub fn new(profile: u64, extra: Option<Extra>) -> Arc<RoundShared> {
+            let weights = match profile % 4 {
+                _ if profile == QUIET => [1000, 1000, 1000],
+                0 => [400, 650, 850],
+                1 => [850, 950, 990],
+                2 => [100, 300, 500],
+                _ => [300, 800, 950],
+            };
+            Arc::new(RoundShared {
+                fp: AtomicU64::new(0xcbf29ce484222325),
+                events: AtomicU64::new(0),
+                in_window: AtomicU32::new(0),
+                overlap_events: AtomicU64::new(0),
+                weights,
+                extra,
+            })
+        }
+    }
+
+    struct Tl {
+        sh: Arc<RoundShared>,
+        tidx: usize,
+        rng: Rng,
+        tag: u64,
+        counts: Vec<(&'static str, u64)>,
+    }
+
+    thread_local! {
+        static TL: RefCell<Option<Tl>> = RefCell::new(None);
+    }
+
+    /// register the process-wide yield hook (idempotent). Threads that did not call `enter` pass through.
+    pub fn install() {
+        use std::sync::Once;
+        static ONCE: Once = Once::new();
+        ONCE.call_once(|| {
+            turdb::verif::set_yield_hook(Some(Arc::new(|name: &'static str| point(name))));
+        });
+    }
+
+    /// bind the calling thread to a round; its PRNG is seeded from (seed, thread index, round)
+    pub fn enter(sh: &Arc<RoundShared>, tidx: usize, seed: u64, round: u64) {
+        let rng = Rng::derive(seed ^ round.wrapping_mul(0xA24BAED4963EE407), 0x5C4ED ^ ((tidx as u64 + 1) << 20));
+        TL.with(|c| {
+            *c.borrow_mut() = Some(Tl { sh: Arc::clone(sh), tidx, rng, tag: 0, counts: Vec::new() });
+        });
+    }
+
+    /// unbind; returns the per-point event counts of this thread
+    pub fn leave() -> Vec<(&'static str, u64)> {
+        TL.with(|c| c.borrow_mut().take().map(|t| t.counts).unwrap_or_default())
+    }
+
+    pub fn set_tag(tag: u64) {
+        TL.with(|c| {
+            if let Some(t) = c.borrow_mut().as_mut() {
+                t.tag = tag;
+            }
+        });
+    }
+
+    pub fn window_enter(sh: &RoundShared) {
+        sh.in_window.fetch_add(1, SeqCst);
+    }
+    pub fn window_exit(sh: &RoundShared) {
+        sh.in_window.fetch_sub(1, SeqCst);
+    }
+
+    /// a named point between two critical sections (called by the library hook and by the harness)
+    pub fn point(name: &'static str) {
+        let got = TL.with(|c| {
+            let mut b = c.borrow_mut();
+            let tl = b.as_mut()?;
+            match tl.counts.iter_mut().find(|(n, _)| *n == name) {
+                Some(e) => e.1 += 1,
+                None => tl.counts.push((name, 1)),
+            }
+            let r = tl.rng.below(1000) as u32;
+            let amt = tl.rng.next();
+            Some((Arc::clone(&tl.sh), tl.tidx, tl.tag, r, amt))
+        });
+        let Some((sh, tidx, tag, r, amt)) = got else { return };
+        let h = fnv(name.as_bytes()) ^ (tidx as u64 + 1).wrapping_mul(0x9E3779B97F4A7C15);
+        let _ = sh.fp.fetch_update(SeqCst, SeqCst, |f| Some((f ^ h).wrapping_mul(0x100000001b3)));
+        sh.events.fetch_add(1, SeqCst);
+        if sh.in_window.load(SeqCst) >= 2 {
+            sh.overlap_events.fetch_add(1, SeqCst);
+        }
+        if let Some(x) = &sh.extra {
+            x(tidx, tag, name);
+        }
+        act(&sh.weights, r, amt);
+    }
+
+    fn act(w: &[u32; 3], r: u32, amt: u64) {
+        if r < w[0] {
+            return;
+        }
+        if cfg!(miri) || r < w[1] {
+            std::thread::yield_now();
+        } else if r < w[2] {
+            let d = Duration::from_micros(1 + amt % 50);
+            let t = Instant::now();
+            while t.elapsed() < d {
+                std::hint::spin_loop();
+            }
+        } else {
+            std::thread::sleep(Duration::from_micros(1 + amt % 200));
+        }
+    }
+
+    // -- environment stall detector: a heartbeat thread notices when the machine starves us -------
+    static STALLS: AtomicU64 = AtomicU64::new(0);
+    static HB_STOP: AtomicBool = AtomicBool::new(false);
+
+    /// number of heartbeat oversleeps (> 150 ms on a 5 ms sleep) seen so far in this process
+    pub fn stalls() -> u64 {
+        STALLS.load(SeqCst)
+    }
+
+    pub fn start_heartbeat() -> Option<std::thread::JoinHandle<()>> {
+        if cfg!(miri) {
+            return None;
+        }
+        HB_STOP.store(false, SeqCst);
+        Some(std::thread::spawn(|| {
+            while !HB_STOP.load(SeqCst) {
+                let t = Instant::now();
+                std::thread::sleep(Duration::from_millis(5));
+                if t.elapsed() > Duration::from_millis(150) {
+                    STALLS.fetch_add(1, SeqCst);
+                }
+            }
+        }))
+    }
+
+    pub fn stop_heartbeat(h: Option<std::thread::JoinHandle<()>>) {
+        HB_STOP.store(true, SeqCst);
+        if let Some(h) = h {
+            let _ = h.join();
+        }
+    }
+
+    /// Run `rounds` rounds on `lanes` lane threads (each lane runs whole rounds, one after the other),
+    /// merging every result into `agg`. Stops early at `deadline`. Returns (agg, rounds run, deadline hit).
+    pub fn run_lanes<R: Send, A: Send>(
+        lanes: usize,
+        rounds: u64,
+        deadline: Instant,
+        agg: A,
+        f: impl Fn(u64) -> R + Sync,
+        merge: impl Fn(&mut A, u64, R) + Sync,
+    ) -> (A, u64, bool) {
+        let next = AtomicU64::new(0);
+        let done = AtomicU64::new(0);
+        let hit = AtomicBool::new(false);
+        let agg = Mutex::new(agg);
+        std::thread::scope(|s| {
+            for _ in 0..lanes.max(1) {
+                s.spawn(|| loop {
+                    let i = next.fetch_add(1, SeqCst);
+                    if i >= rounds {
+                        break;
+                    }
+                    if Instant::now() >= deadline {
+                        hit.store(true, SeqCst);
+                        break;
+                    }
+                    let r = f(i);
+                    merge(&mut agg.lock(), i, r);
+                    done.fetch_add(1, SeqCst);
+                });
+            }
+        });
+        (agg.into_inner(), done.load(SeqCst), hit.load(SeqCst))
+    }
+}
+
+// ------------------------------------------------------------------------------------------------
+// page pattern
+// ------------------------------------------------------------------------------------------------
+const PAGE: usize = 16384;
+const MAGIC: u64 = 0x5455_5244_4243_3335;
+
+fn stride() -> usize {
+    if cfg!(miri) {
+        4096
+    } else {
+        512
+    }
+}
+
+fn mix(key: u64, gen: u64, stamp: u64, off: u64) -> u64 {
+    let mut z = key.wrapping_mul(0x9E3779B97F4A7C15) ^ gen.wrapping_mul(0xC2B2AE3D27D4EB4F) ^ stamp.wrapping_mul(0x165667B19E3779F9) ^ off.wrapping_mul(0xD6E8FEB86659FD93);
+    z = (z ^ (z >> 30)).wrapping_mul(0xBF58476D1CE4E5B9);
+    z = (z ^ (z >> 27)).wrapping_mul(0x94D049BB133111EB);
+    z ^ (z >> 31)
+}
+
+fn put(buf: &mut [u8], off: usize, v: u64) {
+    buf[off..off + 8].copy_from_slice(&v.to_le_bytes());
+}
+fn get(buf: &[u8], off: usize) -> u64 {
+    u64::from_le_bytes(buf[off..off + 8].try_into().unwrap())
+}
+
+/// header (magic, key, generation, stamp) + a word derived from all three every `stride` bytes and at the end
+fn write_page(buf: &mut [u8], key: u64, gen: u64, stamp: u64) {
+    put(buf, 0, MAGIC);
+    put(buf, 8, key);
+    put(buf, 16, gen);
+    put(buf, 24, stamp);
+    let st = stride();
+    let mut off = st;
+    while off + 8 <= PAGE {
+        put(buf, off, mix(key, gen, stamp, off as u64));
+        off += st;
+    }
+    put(buf, PAGE - 8, mix(key, gen, stamp, (PAGE - 8) as u64));
+}
+
+#[derive(Clone, Copy, Debug)]
+struct Decoded {
+    magic_ok: bool,
+    key: u64,
+    gen: u64,
+    stamp: u64,
+    /// first offset whose word disagrees with the header (None = page is one consistent write)
+    bad_off: Option<usize>,
+}
+
+fn read_page(buf: &[u8]) -> Decoded {
+    let (key, gen, stamp) = (get(buf, 8), get(buf, 16), get(buf, 24));
+    let mut bad = None;
+    let st = stride();
+    let mut off = st;
+    while off + 8 <= PAGE {
+        if get(buf, off) != mix(key, gen, stamp, off as u64) {
+            bad = Some(off);
+            break;
+        }
+        off += st;
+    }
+    if bad.is_none() && get(buf, PAGE - 8) != mix(key, gen, stamp, (PAGE - 8) as u64) {
+        bad = Some(PAGE - 8);
+    }
+    Decoded { magic_ok: buf.len() == PAGE && get(buf, 0) == MAGIC, key, gen, stamp, bad_off: bad }
+}
+
+fn key_u64(k: &PageKey) -> u64 {
+    ((k.file_id as u64) << 32) | k.page_no as u64
+}
+
+// ------------------------------------------------------------------------------------------------
+// round state
+// ------------------------------------------------------------------------------------------------
+#[derive(Default, Clone, Copy)]
+struct Model {
+    gen: u64,
+    stamp: u64,
+}
+
+struct KeyState {
+    key: PageKey,
+    /// harness-side exclusivity for data access + the last (generation, stamp) the harness saw/wrote
+    model: Mutex<Model>,
+    /// number of times the init closure ran for this key (each run = the key was not resident)
+    init_calls: AtomicU64,
+    /// threads currently inside get_or_insert for this key
+    goi_inflight: AtomicU32,
+}
+
+#[derive(Clone, Debug)]
+pub struct Viol {
+    pub assertion: &'static str,
+    pub sig: String,
+    pub detail: Value,
+}
+
+#[derive(Clone, Debug)]
+struct Params {
+    round: u64,
+    threads: usize,
+    capacity: usize,
+    nkeys: usize,
+    shards_used: usize,
+    hot: usize,
+    ops: usize,
+    max_held: usize,
+    budget_mode: u8, // 0 none, 1 budget (roomy), 2 budget binds at 33 pages (eviction-for-budget path), 3 total limit squeezed (allocate errors)
+    budget_target_pages: usize,
+    cache_ballast_pages: usize,
+    init_fail_permille: u32,
+    evict_all_permille: u32,
+    empty_with_clear: bool,
+    profile: u64,
+}
+
+struct Round<'a> {
+    p: &'a Params,
+    cache: &'a PageCache,
+    keys: &'a [KeyState],
+    sh: &'a Arc<sched::RoundShared>,
+    stamp_ctr: &'a AtomicU64,
+}
+
+#[derive(Default)]
+struct WorkerOut {
+    c: BTreeMap<&'static str, u64>,
+    viols: Vec<Viol>,
+    trace: Vec<String>,
+    points: Vec<(&'static str, u64)>,
+}
+
+impl WorkerOut {
+    fn bump(&mut self, k: &'static str) {
+        *self.c.entry(k).or_insert(0) += 1;
+    }
+    fn add(&mut self, k: &'static str, n: u64) {
+        *self.c.entry(k).or_insert(0) += n;
+    }
+    fn viol(&mut self, assertion: &'static str, sig: String, detail: Value) {
+        self.bump("sub_assertion_failures");
+        if self.viols.len() < 4 {
+            self.viols.push(Viol { assertion, sig, detail });
+        }
+    }
+}
+
+struct Held<'a> {
+    r: PageRef<'a>,
+    k: usize,
+    /// init_calls of the key right after the pin was obtained: must not move while the pin lives
+    calls0: u64,
+}
+
+/// Observe (and optionally overwrite) the page behind a pinned reference, under the key's harness lock.
+fn observe(rd: &Round, h: &mut Held, write: bool, tidx: usize, out: &mut WorkerOut, whence: &'static str) {
+    let ks = &rd.keys[h.k];
+    let want_key = key_u64(&ks.key);
+    let mut m = ks.model.lock();
+    // pinned_not_evicted, part 1: nobody may have re-created the page while we hold a pin on it
+    let calls_now = ks.init_calls.load(SeqCst);
+    if calls_now != h.calls0 {
+        out.viol(
+            "pinned_not_evicted",
+            "C35/pinned_not_evicted/init_ran_for_key_while_pin_held".into(),
+            json!({"key": [ks.key.file_id, ks.key.page_no], "init_calls_at_pin": h.calls0, "init_calls_now": calls_now, "at": whence, "thread": tidx, "round": rd.p.round}),
+        );
+        h.calls0 = calls_now;
+    }
+    sched::window_enter(rd.sh);
+    let dec = catch(|| read_page(h.r.data()));
+    sched::window_exit(rd.sh);
+    out.bump("reads_validated");
+    let dec = match dec {
+        Ok(d) => d,
+        Err(p) => {
+            // pinned_not_evicted, part 2: data() must not panic while the PageRef lives
+            out.viol(
+                "pinned_not_evicted",
+                format!("C35/pinned_not_evicted/data_panicked@{}", panic_site(&p)),
+                json!({"key": [ks.key.file_id, ks.key.page_no], "panic": p, "at": whence, "thread": tidx, "round": rd.p.round}),
+            );
+            return;
+        }
+    };
+    let detail = |what: &str| json!({"what": what, "key": [ks.key.file_id, ks.key.page_no], "expected_key_word": want_key, "observed": {"magic_ok": dec.magic_ok, "key_word": dec.key, "generation": dec.gen, "stamp": dec.stamp, "first_inconsistent_offset": dec.bad_off}, "model": {"generation": m.gen, "stamp": m.stamp}, "at": whence, "thread": tidx, "round": rd.p.round});
+    let mut gen_for_write = m.gen.max(1);
+    if !dec.magic_ok || dec.key != want_key {
+        out.viol("content_is_last_write", "C35/content_is_last_write/page_holds_bytes_of_another_key".into(), detail("header does not name this key"));
+    } else if dec.bad_off.is_some() {
+        out.viol("content_is_last_write", "C35/content_is_last_write/page_is_a_mix_of_two_writes".into(), detail("filler words disagree with header"));
+    } else if dec.gen < m.gen {
+        out.viol("content_is_last_write", "C35/content_is_last_write/older_generation_resurfaced".into(), detail("generation went backwards"));
+    } else if dec.gen == m.gen {
+        gen_for_write = dec.gen;
+        if dec.stamp != m.stamp {
+            out.viol("content_is_last_write", "C35/content_is_last_write/stamp_is_not_last_write_of_resident_page".into(), detail("same generation, different stamp"));
+        }
+    } else {
+        // a newer generation: the key was evicted (legitimate only while unpinned: checked by the pin
+        // holders) and re-created by init; the first observation of a generation must be pristine
+        gen_for_write = dec.gen;
+        if m.gen != 0 {
+            out.bump("evict_reinit_observed");
+        }
+        if dec.stamp != 0 {
+            out.viol("content_is_last_write", "C35/content_is_last_write/fresh_generation_not_pristine".into(), detail("new generation first seen with a write stamp"));
+        }
+        m.gen = dec.gen;
+        m.stamp = 0;
+    }
+    if write {
+        let stamp = rd.stamp_ctr.fetch_add(1, SeqCst) + 1;
+        sched::window_enter(rd.sh);
+        let w = catch(|| {
+            let buf = h.r.data_mut();
+            write_page(buf, want_key, gen_for_write, stamp);
+        });
+        sched::window_exit(rd.sh);
+        match w {
+            Ok(()) => {
+                m.gen = gen_for_write;
+                m.stamp = stamp;
+                out.bump("writes");
+            }
+            Err(p) => out.viol(
+                "pinned_not_evicted",
+                format!("C35/pinned_not_evicted/data_mut_panicked@{}", panic_site(&p)),
+                json!({"key": [ks.key.file_id, ks.key.page_no], "panic": p, "at": whence, "thread": tidx, "round": rd.p.round}),
+            ),
+        }
+    }
+}
+
+fn classify_err(msg: &str) -> &'static str {
+    if msg.contains("injected init failure") {
+        "goi_err_init_injected"
+    } else if msg.contains("all pages pinned") {
+        "goi_err_shard_full_all_pinned"
+    } else if msg.contains("memory budget exhausted") {
+        "goi_err_budget_no_evictable"
+    } else if msg.contains("memory budget exceeded") {
+        "goi_err_budget_allocate"
+    } else {
+        "goi_err_other"
+    }
+}
+
+fn worker<'a>(rd: &Round<'a>, tidx: usize, seed: u64, barrier: &std::sync::Barrier) -> WorkerOut {
+    let p = rd.p;
+    let mut out = WorkerOut::default();
+    let mut rng = Rng::derive(seed ^ p.round.wrapping_mul(0x2545F4914F6CDD1D), 35_000 + tidx as u64);
+    sched::enter(rd.sh, tidx, seed, p.round);
+    barrier.wait();
+    let mut held: Vec<Held<'a>> = Vec::new();
+    let cache: &'a PageCache = rd.cache;
+    for opi in 0..p.ops {
+        sched::point("h.between_ops");
+        out.bump("ops");
+        let roll = rng.below(100);
+        let want_acquire = held.is_empty() || (held.len() < p.max_held && roll < 42);
+        if want_acquire {
+            let k = if rng.chance(1, 2) { rng.below(p.hot as u64) as usize } else { rng.below(p.nkeys as u64) as usize };
+            let ks = &rd.keys[k];
+            let key = ks.key;
+            sched::set_tag(k as u64 + 1);
+            if rng.chance(3, 10) {
+                sched::window_enter(rd.sh);
+                let r = catch(|| cache.get(&key));
+                sched::window_exit(rd.sh);
+                match r {
+                    Ok(Some(r)) => {
+                        out.bump("get_hit");
+                        let calls0 = ks.init_calls.load(SeqCst);
+                        held.push(Held { r, k, calls0 });
+                        if out.trace.len() < 40 {
+                            out.trace.push(format!("get({},{}) hit", key.file_id, key.page_no));
+                        }
+                        sched::point("h.pinned");
+                        let n = held.len() - 1;
+                        observe(rd, &mut held[n], false, tidx, &mut out, "first read after get");
+                    }
+                    Ok(None) => out.bump("get_miss"),
+                    Err(pn) => out.viol("no_panic", format!("C35/no_panic/get_panicked@{}", panic_site(&pn)), json!({"panic": pn, "round": p.round})),
+                }
+            } else {
+                let fail = p.init_fail_permille > 0 && rng.below(1000) < p.init_fail_permille as u64;
+                let mut init_ran = false;
+                let want = key_u64(&key);
+                ks.goi_inflight.fetch_add(1, SeqCst);
+                sched::window_enter(rd.sh);
+                let r = catch(|| {
+                    cache.get_or_insert(key, |buf| {
+                        init_ran = true;
+                        let gen = ks.init_calls.fetch_add(1, SeqCst) + 1;
+                        if fail {
+                            eyre::bail!("injected init failure");
+                        }
+                        write_page(buf, want, gen, 0);
+                        Ok(())
+                    })
+                });
+                sched::window_exit(rd.sh);
+                ks.goi_inflight.fetch_sub(1, SeqCst);
+                if init_ran {
+                    out.bump("init_calls");
+                }
+                match r {
+                    Ok(Ok(r)) => {
+                        out.bump(if init_ran { "goi_inserted" } else { "goi_found" });
+                        let calls0 = ks.init_calls.load(SeqCst);
+                        held.push(Held { r, k, calls0 });
+                        if out.trace.len() < 40 {
+                            out.trace.push(format!("get_or_insert({},{}) {}", key.file_id, key.page_no, if init_ran { "inserted" } else { "found" }));
+                        }
+                        sched::point("h.pinned");
+                        let n = held.len() - 1;
+                        observe(rd, &mut held[n], false, tidx, &mut out, "first read after get_or_insert");
+                    }
+                    Ok(Err(e)) => {
+                        let msg = format!("{:#}", e);
+                        let c = classify_err(&msg);
+                        out.bump(c);
+                        if c == "goi_err_init_injected" {
+                            out.bump("init_failures");
+                        }
+                        if out.trace.len() < 40 {
+                            out.trace.push(format!("get_or_insert({},{}) -> Err {}", key.file_id, key.page_no, c));
+                        }
+                    }
+                    Err(pn) => out.viol("no_panic", format!("C35/no_panic/get_or_insert_panicked@{}", panic_site(&pn)), json!({"panic": pn, "round": p.round})),
+                }
+            }
+            sched::set_tag(0);
+        } else if roll < 62 {
+            let i = rng.below(held.len() as u64) as usize;
+            observe(rd, &mut held[i], false, tidx, &mut out, "read through held pin");
+        } else if roll < 84 {
+            let i = rng.below(held.len() as u64) as usize;
+            observe(rd, &mut held[i], true, tidx, &mut out, "write through held pin");
+            if out.trace.len() < 40 {
+                let k = rd.keys[held[i].k].key;
+                out.trace.push(format!("write({},{})", k.file_id, k.page_no));
+            }
+        } else {
+            let i = rng.below(held.len() as u64) as usize;
+            let mut h = held.swap_remove(i);
+            // last look right before unpinning
+            observe(rd, &mut h, false, tidx, &mut out, "read before unpin");
+            sched::window_enter(rd.sh);
+            let d = catch(move || drop(h));
+            sched::window_exit(rd.sh);
+            out.bump("unpins");
+            if let Err(pn) = d {
+                out.viol("no_panic", format!("C35/no_panic/unpin_panicked@{}", panic_site(&pn)), json!({"panic": pn, "round": p.round}));
+            }
+        }
+        if p.evict_all_permille > 0 && rng.below(1000) < p.evict_all_permille as u64 {
+            sched::window_enter(rd.sh);
+            let r = catch(|| cache.evict_all_unpinned());
+            sched::window_exit(rd.sh);
+            match r {
+                Ok(n) => {
+                    out.bump("evict_all_unpinned_calls");
+                    out.add("evicted_by_evict_all_unpinned", n as u64);
+                }
+                Err(pn) => out.viol("no_panic", format!("C35/no_panic/evict_all_unpinned_panicked@{}", panic_site(&pn)), json!({"panic": pn, "round": p.round})),
+            }
+        }
+        if opi % 16 == 7 {
+            check_occupancy(rd.cache, &mut out, p.round, "during run");
+        }
+    }
+    while let Some(mut h) = held.pop() {
+        observe(rd, &mut h, false, tidx, &mut out, "read before final unpin");
+        let _ = catch(move || drop(h));
+        out.bump("unpins");
+    }
+    out.points = sched::leave();
+    out
+}
+
+fn check_occupancy(cache: &PageCache, out: &mut WorkerOut, round: u64, when: &str) {
+    out.bump("occupancy_checks");
+    for (i, (n, cap)) in cache.verif_shard_occupancy().into_iter().enumerate() {
+        if n > cap {
+            out.viol("shard_len_le_capacity", "C35/shard_len_le_capacity/shard_holds_more_than_capacity".into(), json!({"shard": i, "entries": n, "capacity": cap, "when": when, "round": round}));
+            break;
+        }
+    }
+}
+
+struct RoundOut {
+    fp: u64,
+    events: u64,
+    overlapped: bool,
+    c: BTreeMap<&'static str, u64>,
+    viols: Vec<Viol>,
+    sample: Option<Value>,
+    points: Vec<(&'static str, u64)>,
+    strat: String,
+}
+
+fn gen_params(seed: u64, round: u64, quick: bool) -> (Params, Rng) {
+    let miri = cfg!(miri);
+    let mut rng = Rng::derive(seed ^ round.wrapping_mul(0x9FB21C651E98DF25), 35);
+    let threads = if miri { rng.usize(2, 3) } else { *rng.pick(&[2usize, 2, 3, 3, 4, 4, 6, 8]) };
+    let capacity = if miri { *rng.pick(&[64usize, 96]) } else { *rng.pick(&[64usize, 64, 96, 128, 128, 192]) };
+    let shards_used = if miri { rng.usize(1, 2) } else { *rng.pick(&[1usize, 2, 4, 4, 16, 64, 64]) };
+    let nkeys = if miri { rng.usize(5, 10) } else { rng.usize(200, 400).max(shards_used * 3) };
+    let hot = if miri { 3 } else { *rng.pick(&[2usize, 4, 8, 16, 64]) }.min(nkeys);
+    let ops = if miri { rng.usize(16, 30) } else if quick { rng.usize(60, 300) } else { rng.usize(100, 1000) };
+    let max_held = rng.usize(1, 4);
+    let budget_mode = *rng.pick(&[0u8, 0, 0, 1, 1, 2, 2, 3]);
+    // the budget can only bind before the shard capacities do if enough shards are in play
+    let (capacity, shards_used) = if budget_mode == 2 && !miri { (*rng.pick(&[128usize, 192]), *rng.pick(&[16usize, 64, 64])) } else { (capacity, shards_used) };
+    let nkeys = nkeys.max(shards_used * 3);
+    let budget_target_pages = rng.usize(6, 28);
+    let cache_ballast_pages = rng.usize(0, 2);
+    // init failures only in their own stratum so that the other rounds stay free of that cause
+    let init_fail_permille = if rng.chance(3, 20) { *rng.pick(&[40u32, 125, 300]) } else { 0 };
+    let evict_all_permille = if rng.chance(1, 4) { *rng.pick(&[5u32, 20]) } else { 0 };
+    let p = Params {
+        round,
+        threads,
+        capacity,
+        nkeys,
+        shards_used,
+        hot,
+        ops,
+        max_held,
+        budget_mode,
+        budget_target_pages,
+        cache_ballast_pages,
+        init_fail_permille,
+        evict_all_permille,
+        empty_with_clear: rng.chance(2, 3),
+        profile: rng.below(4),
+    };
+    (p, rng)
+}
+
+fn run_round(seed: u64, round: u64, quick: bool) -> RoundOut {
+    let (p, mut rng) = gen_params(seed, round, quick);
+    let strat = format!("t{}c{}s{}b{}f{}e{}", p.threads, p.capacity, p.shards_used, p.budget_mode, (p.init_fail_permille > 0) as u8, (p.evict_all_permille > 0) as u8);
+    let mut out = WorkerOut::default();
+    // keys: `shards_used` shards, distinct (file_id, page_no)
+    let first_shard = rng.below(64) as usize;
+    let keys: Arc<Vec<KeyState>> = Arc::new(
+        (0..p.nkeys)
+        .map(|i| {
+            let shard = (first_shard + (i % p.shards_used) * if p.shards_used <= 4 { 1 } else { 64 / p.shards_used.min(64) }) % 64;
+            let file_id = rng.below(4) as u32;
+            let r = ((shard as i64 - file_id as i64 * 31).rem_euclid(64)) as u32;
+            let key = PageKey::new(file_id, (i as u32) * 64 + r);
+            KeyState { key, model: Mutex::new(Model::default()), init_calls: AtomicU64::new(0), goi_inflight: AtomicU32::new(0) }
+        })
+        .collect(),
+    );
+    // cache, optionally with a budget; the harness itself owns `cache_ballast_pages` of Pool::Cache so that
+    // releasing too much is as visible as releasing too little
+    let budget = if p.budget_mode > 0 { Some(Arc::new(MemoryBudget::with_limit(4 << 20))) } else { None };
+    let mut shared_ballast = 0usize;
+    if let Some(b) = &budget {
+        let _ = b.allocate(Pool::Cache, p.cache_ballast_pages * PAGE);
+        if p.budget_mode >= 2 {
+            // mode 2: the cache pool (reserved 32 pages + what is left of the shared pool) is full at exactly
+            // 33 pages, the one size at which can_allocate() and allocate() agree, so get_or_insert has to
+            // evict to make room; mode 3: the total limit is reached earlier and allocate() reports errors
+            let limit = b.total_limit();
+            let want_free = if p.budget_mode == 2 { 33 * PAGE } else { (p.budget_target_pages + p.cache_ballast_pages) * PAGE };
+            shared_ballast = limit.saturating_sub(want_free);
+            if b.allocate(Pool::Shared, shared_ballast).is_err() {
+                shared_ballast = 0;
+            }
+        }
+    }
+    let cache = match catch(|| PageCache::with_budget(p.capacity, budget.clone())) {
+        Ok(Ok(c)) => c,
+        other => {
+            out.viol("no_panic", "C35/no_panic/cache_construction_failed".into(), json!({"capacity": p.capacity, "result": format!("{:?}", other.map(|r| r.map(|_| ()).map_err(|e| e.to_string())))}));
+            return RoundOut { fp: 0, events: 0, overlapped: false, c: out.c, viols: out.viols, sample: None, points: vec![], strat };
+        }
+    };
+    let same_key_race = Arc::new(AtomicU64::new(0));
+    let extra: sched::Extra = {
+        // at the point between the read-locked miss and the write lock: is another thread inside
+        // get_or_insert for the very same key right now? (the double-check path is then exercised)
+        let keys = Arc::clone(&keys);
+        let race = Arc::clone(&same_key_race);
+        Arc::new(move |_tidx, tag, name| {
+            if name == "cache.upgrade" && tag > 0 && keys[tag as usize - 1].goi_inflight.load(SeqCst) >= 2 {
+                race.fetch_add(1, SeqCst);
+            }
+        })
+    };
+    let sh = sched::RoundShared::new(p.profile, Some(extra));
+    let stamp_ctr = AtomicU64::new(0);
+    let rd = Round { p: &p, cache: &cache, keys: &keys[..], sh: &sh, stamp_ctr: &stamp_ctr };
+    let barrier = std::sync::Barrier::new(p.threads);
+    let outs: Vec<WorkerOut> = std::thread::scope(|s| {
+        let hs: Vec<_> = (0..p.threads)
+            .map(|t| {
+                let rd = &rd;
+                let barrier = &barrier;
+                s.spawn(move || worker(rd, t, seed, barrier))
+            })
+            .collect();
+        hs.into_iter()
+            .map(|h| match h.join() {
+                Ok(o) => o,
+                Err(_) => {
+                    let mut o = WorkerOut::default();
+                    o.viol("no_panic", "C35/no_panic/harness_worker_panicked".into(), json!({"round": round}));
+                    o
+                }
+            })
+            .collect()
+    });
+    let mut points: Vec<(&'static str, u64)> = vec![];
+    let mut trace0 = vec![];
+    for (i, o) in outs.into_iter().enumerate() {
+        for (k, v) in o.c {
+            out.add(k, v);
+        }
+        out.viols.extend(o.viols);
+        for (n, c) in o.points {
+            match points.iter_mut().find(|(m, _)| *m == n) {
+                Some(e) => e.1 += c,
+                None => points.push((n, c)),
+            }
+        }
+        if i == 0 {
+            trace0 = o.trace;
+        }
+    }
+    // ---- quiescent checks -------------------------------------------------------------------------
+    check_occupancy(&cache, &mut out, round, "after all threads finished");
+    let mut resident = 0u64;
+    for k in 0..keys.len() {
+        let key = keys[k].key;
+        match catch(|| cache.get(&key)) {
+            Ok(Some(r)) => {
+                resident += 1;
+                let calls0 = keys[k].init_calls.load(SeqCst);
+                let mut h = Held { r, k, calls0 };
+                observe(&rd, &mut h, false, usize::MAX, &mut out, "final sweep of resident keys");
+            }
+            Ok(None) => {}
+            Err(pn) => out.viol("no_panic", format!("C35/no_panic/get_panicked@{}", panic_site(&pn)), json!({"panic": pn, "round": round})),
+        }
+    }
+    out.add("resident_keys_at_end", resident);
+    let total_cap: usize = cache.verif_shard_occupancy().iter().map(|x| x.1).sum();
+    if cache.len() > total_cap {
+        out.viol("shard_len_le_capacity", "C35/shard_len_le_capacity/total_len_exceeds_total_capacity".into(), json!({"len": cache.len(), "capacity": total_cap, "round": round}));
+    }
+    // ---- empty the cache; the budget must be back to what the harness itself holds ----------------
+    let len_before = cache.len();
+    let used_before = budget.as_ref().map(|b| b.stats().cache_used);
+    let emptied = catch(|| {
+        if p.empty_with_clear {
+            cache.clear();
+            len_before
+        } else {
+            cache.evict_all_unpinned()
+        }
+    });
+    match emptied {
+        Ok(n) => {
+            if cache.len() != 0 || n != len_before {
+                out.viol(
+                    "budget_zero_after_clear",
+                    format!("C35/budget_zero_after_clear/{}_left_entries_in_unpinned_cache", if p.empty_with_clear { "clear" } else { "evict_all_unpinned" }),
+                    json!({"len_before": len_before, "removed": n, "len_after": cache.len(), "round": round}),
+                );
+            }
+        }
+        Err(pn) => out.viol("no_panic", format!("C35/no_panic/empty_panicked@{}", panic_site(&pn)), json!({"panic": pn, "round": round})),
+    }
+    if let Some(b) = &budget {
+        out.bump("budget_rounds");
+        let ballast = p.cache_ballast_pages * PAGE;
+        let used_after = b.stats().cache_used;
+        let init_failures = *out.c.get("init_failures").unwrap_or(&0) as usize;
+        if used_after != ballast {
+            let sig = if used_after > ballast && (used_after - ballast) == init_failures * PAGE {
+                "C35/budget_zero_after_clear/budget_of_page_not_released_when_init_fails"
+            } else if used_after > ballast {
+                "C35/budget_zero_after_clear/cache_pool_nonzero_after_cache_emptied"
+            } else {
+                "C35/budget_zero_after_clear/cache_pool_released_more_than_it_allocated"
+            };
+            out.viol(
+                "budget_zero_after_clear",
+                sig.into(),
+                json!({"cache_used_after_empty_minus_harness_own": used_after as i64 - ballast as i64, "page_size": PAGE, "failed_init_calls": init_failures, "cache_used_before_empty": used_before, "entries_before_empty": len_before, "emptied_with": if p.empty_with_clear { "clear" } else { "evict_all_unpinned" }, "round": round, "params": format!("{:?}", p)}),
+            );
+        }
+        b.release(Pool::Cache, ballast);
+        b.release(Pool::Shared, shared_ballast);
+    }
+    let events = sh.events.load(SeqCst);
+    let overlapped = sh.overlap_events.load(SeqCst) > 0;
+    out.add("overlap_events", sh.overlap_events.load(SeqCst));
+    out.add("same_key_upgrade_races", same_key_race.load(SeqCst));
+    let sample = if round < 3 {
+        Some(json!({"round": round, "params": format!("{:?}", p), "thread0_first_ops": trace0, "yield_point_events": events, "counters": out.c}))
+    } else {
+        None
+    };
+    RoundOut { fp: sh.fp.load(SeqCst), events, overlapped, c: out.c, viols: out.viols, sample, points, strat }
+}
+
+#[derive(Default)]
+struct Agg {
+    c: BTreeMap<&'static str, u64>,
+    viols: Vec<Viol>,
+    viol_sig_counts: BTreeMap<String, u64>,
+    fps: HashSet<u64>,
+    nontrivial: HashSet<u64>,
+    strata: BTreeMap<String, u64>,
+    samples: Vec<Value>,
+    points: BTreeMap<&'static str, u64>,
+    trivial_rounds: u64,
+}
+
+pub fn run(a: &Args) -> i32 {
+    let miri = cfg!(miri);
+    let mut ctx = Ctx::new(
+        "C35",
+        &a.tier,
+        a.seed,
+        "exploration",
+        "a case = one round: a fresh PageCache (capacity 64..192 = 1..3 pages per shard; optionally with a MemoryBudget, roomy or squeezed to 6..28 pages) and 2..8 real threads doing get / get_or_insert(init writes key+generation pattern) / read / write(unique stamp, under the harness's own per-key lock) / unpin / evict_all_unpinned over 200..400 keys concentrated on 1..64 shards (hot subset of 2..64 keys), with random nothing|yield|spin|sleep at the library's yield points (cache.upgrade, budget.check_cas) and between harness operations. Stratified: failing init closures only in ~15% of rounds, evict_all_unpinned only in ~25%. distinct_nontrivial = distinct interleaving fingerprints (order-sensitive hash of (thread, yield point) events) of rounds in which >= 2 threads were inside cache calls at a yield-point event",
+    );
+    sched::install();
+    let quick = ctx.quick();
+    let cores = std::thread::available_parallelism().map(|n| n.get()).unwrap_or(4);
+    let (lanes, rounds, budget_s) = if miri { (1usize, 3u64, 3600u64) } else if quick { ((cores / 4).clamp(1, 4), 1600u64, 36u64) } else { ((cores / 3).clamp(1, 6), 60_000u64, 420u64) };
+    let deadline = Instant::now() + Duration::from_secs(budget_s);
+    let seed = a.seed;
+    let (agg, done, hit) = sched::run_lanes(
+        lanes,
+        rounds,
+        deadline,
+        Agg::default(),
+        |i| run_round(seed, i, quick),
+        |g: &mut Agg, _i, r: RoundOut| {
+            for (k, v) in r.c {
+                *g.c.entry(k).or_insert(0) += v;
+            }
+            for v in r.viols {
+                *g.viol_sig_counts.entry(v.sig.clone()).or_insert(0) += 1;
+                if g.viols.len() < 64 {
+                    g.viols.push(v);
+                }
+            }
+            g.fps.insert(r.fp);
+            if r.overlapped && r.events > 0 {
+                g.nontrivial.insert(r.fp);
+            } else {
+                g.trivial_rounds += 1;
+            }
+            *g.strata.entry(r.strat).or_insert(0) += 1;
+            if let Some(s) = r.sample {
+                g.samples.push(s);
+            }
+            for (n, c) in r.points {
+                *g.points.entry(n).or_insert(0) += c;
+            }
+        },
+    );
+    ctx.evals(done);
+    for h in &agg.nontrivial {
+        ctx.nontrivial(*h);
+    }
+    for (k, v) in &agg.c {
+        ctx.count(k, *v);
+    }
+    ctx.count("rounds", done);
+    ctx.count("rounds_trivial_no_overlap", agg.trivial_rounds);
+    for s in agg.samples.iter().take(3) {
+        ctx.sample(s.clone());
+    }
+    // one report per signature first, then repeats while room remains
+    let mut seen = HashSet::new();
+    for v in agg.viols.iter().filter(|v| seen.insert(v.sig.clone())) {
+        ctx.violation(v.assertion, &v.sig, v.detail.clone());
+    }
+    ctx.extra.insert("distinct_interleaving_fingerprints".into(), json!(agg.fps.len()));
+    ctx.extra.insert("yield_point_events".into(), json!(agg.points));
+    ctx.extra.insert("strata_rounds".into(), json!(agg.strata.len()));
+    ctx.extra.insert("failed_sub_assertions_by_signature".into(), json!(agg.viol_sig_counts));
+    ctx.extra.insert("lanes".into(), json!(lanes));
+    ctx.extra.insert("wall_budget_hit".into(), json!(hit));
+    ctx.extra.insert("page_cache_used_by_database".into(), json!(false));
+    ctx.assumptions.push("PageCache is not referenced by Database/any SQL path (only re-exported from storage/mod.rs and named in comments): the component is checked on its own API".into());
+    ctx.assumptions.push("concurrent mutable access to one page is excluded by the harness (PageRef::data_mut documents that as the caller's duty); clear() is only called when no PageRef is alive (it removes pinned entries by design)".into());
+    ctx.assumptions.push("the cache has no backing store here: after an eviction the key legitimately restarts from init; evictions are recognised by the generation number that every init call writes".into());
+    ctx.assumptions.push("interleavings are sampled by perturbation, not enumerated".into());
+    ctx.exhaustive = Some(false);
+    ctx.finish()
 }
